@@ -270,8 +270,11 @@ class Gen:
         if objtags and rng.random() < 0.6:
             body["mutate"] = {str(rng.choice(objtags)): rng.randrange(10, 20)}
         user["body"] = body
-        return {"kind": kind, "async": is_async, "sig": sig, "levels": levels, "invs": invs, "args": args,
+        case = {"kind": kind, "async": is_async, "sig": sig, "levels": levels, "invs": invs, "args": args,
                 "kwargs": kwargs, "user": user, "store": store, "interleave": rng.randrange(0, 4)}
+        if kind not in ("function", "init", "new") and len(levels) >= 2 and rng.random() < 0.2:
+            case["diamond"] = True      # the root's contracts are inherited along two paths
+        return case
 
 
 # ------------------------------------------------------------------ Coq terms
@@ -393,9 +396,14 @@ def cq_case(case):
     recv = RECEIVER[case["kind"]]
     fsig = with_receiver(case["sig"], recv)
     args = ([RECV_VAL[recv]] if recv else []) + case["args"]
+    lvs = list(case["levels"])
+    if case.get("diamond") and len(lvs) >= 2:
+        # L1(M1, M2) with M1(L0), M2(L0): the metaclass collects L0's lists once per base (snapshots are the same
+        # objects and are merged by identity)
+        lvs = [lvs[0], {"pre": lvs[0]["pre"], "snaps": [], "post": lvs[0]["post"]}] + lvs[1:]
     levels = C.cq_list(["{| l_pre := %s; l_snaps := %s; l_post := %s |}" % (
         C.cq_list([cq_contract(c) for c in lv["pre"]]), C.cq_list([cq_snapshot(s) for s in lv["snaps"]]),
-        C.cq_list([cq_contract(c) for c in lv["post"]])) for lv in case["levels"]])
+        C.cq_list([cq_contract(c) for c in lv["post"]])) for lv in lvs])
     invs = C.cq_opt(case["invs"], lambda l: C.cq_list([cq_contract(c) for c in l]))
     return ("{| k_kind := %s; k_mode := %s; k_sig := %s; k_levels := %s; k_invs := %s; k_args := %s; "
             "k_kwargs := %s; k_tables := %s; k_store := %s |}" % (
